@@ -455,6 +455,93 @@ def mutate_one(rng, prog):
     return None
 
 
+def multi_window(rng):
+    """Several WINDOWS of one source pushed through the same chain of rechunk / slice steps (equal window shape, equal
+    target chunks), all alive at once and finally combined: the hand-built names of reads that absorbed a
+    rechunk and a region (`FromArray._with_chunks` / `_accept_slice`) must keep every window apart.
+    Returns (program, [window roots])."""
+    nw = rng.choice([2, 2, 3])
+    w = rng.randint(2, 8)
+    rows = w * nw + rng.choice([0, 0, 1, 3])
+    rank2 = rng.random() < 0.6
+    shape = (rows, rng.randint(1, 4)) if rank2 else (rows,)
+    prog = []
+
+    def add(st):
+        st["out"] = f"v{len(prog) + 1}"
+        prog.append(st)
+        return st["out"]
+
+    src = add({"op": "src", "shape": list(shape), "chunks": [list(c) for c in programs.rand_chunks_nd(rng, shape)],
+               "mul": rng.choice([1, 3]), "off": rng.randint(-3, 3), "mod": rng.choice([1 << 40, 11])})
+    pattern = rng.choice(["RSR", "RSR", "RSR", "SR", "RS", "RSRSR", "RSRSR", "SRS", "SRSR", "S"])
+    wshape = (w,) + shape[1:]
+    sub = (rng.randint(0, w - 1),)
+    sub = (sub[0], rng.randint(sub[0] + 1, w))
+    sshape = (sub[1] - sub[0],) + shape[1:]
+    # the chunk targets are drawn ONCE: every window goes through the same chain
+    targets = {0: [list(c) for c in programs.rand_chunks_nd(rng, shape)], 1: [list(c) for c in programs.rand_chunks_nd(rng, wshape)],
+               2: [list(c) for c in programs.rand_chunks_nd(rng, sshape)]}
+    shared_first = rng.random() < 0.5  # one rechunked node shared by all windows, or one per window (same name anyway)
+    first = None
+    roots = []
+    for i in range(nw):
+        cur = src
+        level = 0  # 0: full array, 1: window, 2: sub-window
+        for k, ch in enumerate(pattern):
+            if ch == "R":
+                if level == 0 and k == 0 and shared_first and first is not None:
+                    cur = first
+                    continue
+                cur = add({"op": "rechunk", "args": [cur], "chunks": copy.deepcopy(targets[level])})
+                if level == 0 and k == 0 and first is None:
+                    first = cur
+            else:
+                if level == 0:
+                    idx = [["s", i * w, (i + 1) * w, None]]
+                else:
+                    idx = [["s", sub[0], sub[1], None]]
+                level += 1
+                cur = add({"op": "getitem", "args": [cur], "index": idx})
+        roots.append(cur)
+    comb = rng.choice(["add", "concatenate", "stack", "none"])
+    if comb == "add":
+        cur = roots[0]
+        for r in roots[1:]:
+            cur = add({"op": "add", "args": [cur, r]})
+    elif comb == "concatenate":
+        add({"op": "concatenate", "args": list(roots), "axis": 0})
+    elif comb == "stack":
+        add({"op": "stack", "args": roots[:2], "axis": 0})
+    return prog, roots
+
+
+def _window_probe(rows, cols, src_chunks, c1, w, c2, comb):
+    shape = [rows, cols]
+    prog = [{"op": "src", "shape": shape, "chunks": src_chunks, "mul": 1, "off": 0, "mod": 1 << 40, "out": "v1"},
+            {"op": "rechunk", "args": ["v1"], "chunks": c1, "out": "v2"}]
+    roots = []
+    for i in range(rows // w):
+        a = f"v{len(prog) + 1}"
+        prog.append({"op": "getitem", "args": ["v2"], "index": [["s", i * w, (i + 1) * w, None]], "out": a})
+        b = f"v{len(prog) + 1}"
+        prog.append({"op": "rechunk", "args": [a], "chunks": c2, "out": b})
+        roots.append(b)
+    if comb == "add":
+        prog.append({"op": "add", "args": roots[:2], "out": f"v{len(prog) + 1}"})
+    else:
+        prog.append({"op": "concatenate", "args": roots, "axis": 0, "out": f"v{len(prog) + 1}"})
+    return prog, roots
+
+
+# dedicated probes run at the start of every history (regressions that once escaped the random programs):
+# x.rechunk((8,6))[0:16].rechunk((4,6)) and [16:32] of one from_array source, alive together (hand-built read names)
+FIXED_PROBES = [
+    _window_probe(32, 6, [[4] * 8, [6]], [[8] * 4, [6]], 16, [[4] * 4, [6]], "add"),
+    _window_probe(12, 2, [[3] * 4, [2]], [[6, 6], [1, 1]], 4, [[2, 2], [2]], "concatenate"),
+]
+
+
 def add_astype(rng, prog):
     """Append / insert a dtype conversion (the DSL of programs.py is int64 only)."""
     prog = copy.deepcopy(prog)
@@ -576,7 +663,7 @@ def history(ctx, reg, nprog):
     kinds = collections.Counter()
     GEN = dict(avoid=("swv-consumer",), zero_axes=0)
 
-    def build(prog, kind, twin=None):
+    def build(prog, kind, twin=None, together=None):
         try:
             with np.errstate(all="ignore"):
                 ref = run_np(prog)
@@ -611,6 +698,8 @@ def history(ctx, reg, nprog):
             todo.append(("merge", rec["id"], rng.randrange(len(built) - 1)))
         if rng.random() < 0.15:
             todo.append(("persist", rec["id"], vs[-1]))
+        if together:
+            todo.append(("together", rec["id"], list(together)))
         return rec
 
     def act(a):
@@ -633,15 +722,26 @@ def history(ctx, reg, nprog):
                 want = rec["ref"][v]
                 if got.shape != want.shape or not np.array_equal(got, want, equal_nan=True):
                     value_mismatch(ctx, rec, v, got, want, progs_json[: i + 1])
+        elif kind == "together":
+            compute_together(ctx, reg, rec, v, progs_json[max(0, i - 2): i + 1])
         elif kind == "merge":
             merge_graphs(ctx, reg, rec, built[v])
         elif kind == "persist":
             persist_family(ctx, reg, rec, v)
 
+    for prog, roots in FIXED_PROBES:
+        ctx.count(("fixed-probe", len(roots)))
+        rec = build(copy.deepcopy(prog), "fixed-probe", together=list(roots))
+    while todo:
+        act(todo.pop(0))
     # schedule: sources of programs are shared on purpose (same shape/chunks/data => same from_array name)
     while len(built) < nprog and since(ctx) < ctx.scale(40, 420):
         r = rng.random()
-        if not built or r < 0.40:
+        if r < 0.10:
+            prog, roots = multi_window(rng)
+            ctx.count(("multi-window", len(roots)))
+            build(prog, "multi-window", together=roots)
+        elif not built or r < 0.40:
             prog, _g = programs.gen_program(rng, depth=rng.randint(1, 6), **GEN)
             if rng.random() < 0.15:
                 prog = add_astype(rng, prog)
@@ -681,6 +781,41 @@ def history(ctx, reg, nprog):
     ctx.notes["programs_built"] = dict(kinds)
     if built:
         ctx.sample({"kind": "history-program", "program": built[len(built) // 2]["prog"]})
+
+
+def compute_together(ctx, reg, rec, vs, hist):
+    """`da.compute(y1, y2, ...)`: several live collections optimised and merged into ONE graph."""
+    import dask_array as da
+
+    xs = [rec["env"][v] for v in vs]
+    ctx.count(("compute-together", len(xs)))
+    try:
+        got = da.compute(*xs)
+    except Exception as e:
+        ctx.notes["compute_exc"] = ctx.notes.get("compute_exc", 0) + 1
+        got = None
+    for c in reg.drain(f"compute-together#{rec['id']}"):
+        report_conflict(ctx, c, hist)
+    if got is None:
+        return
+    for v, g in zip(vs, got):
+        want = rec["ref"][v]
+        g = np.asarray(g)
+        if g.shape != want.shape or not np.array_equal(g, want, equal_nan=True):
+            solo = None
+            try:
+                solo = np.asarray(rec["env"][v].compute())
+            except Exception:
+                pass
+            if solo is not None and solo.shape == want.shape and np.array_equal(solo, want, equal_nan=True):
+                ctx.fail(
+                    "merged-graph:value-depends-on-companions",
+                    {"program": rec["prog"], "computed_together": vs, "var": v, "got": brief(g), "want": brief(want)},
+                    "a collection computes the NumPy result alone but another one inside da.compute(y1, y2, ...): the merged graph shares a key between different arrays",
+                )
+            else:
+                value_mismatch(ctx, rec, v, g, want, hist)
+            return
 
 
 def compare_twins(ctx, a, b, idx=None, what=None):
@@ -857,6 +992,23 @@ def neighbours(v, rng):
         return [np.dtype("float64") if d != np.dtype("float64") else np.dtype("int64"), np.dtype("int32") if d != np.dtype("int32") else np.dtype("int16")]
     if isinstance(v, slice):
         return [slice((v.start or 0) + 1, v.stop, v.step), slice(v.start, (v.stop - 1) if v.stop else 1, v.step)]
+    if isinstance(v, dict) and v:
+        # dict-valued operands (split_every={axis: fan-in}, adjust_chunks, new_axes, kwargs): change one VALUE, keys kept
+        for k in v:
+            ns = neighbours(v[k], rng)
+            if ns:
+                for n in ns[:2]:
+                    w = dict(v)
+                    w[k] = n
+                    out.append(w)
+                break
+        # ... and one KEY (an int key moved to a neighbour not already present)
+        for k in v:
+            if isinstance(k, (int, np.integer)) and not isinstance(k, bool) and (k + 1) not in v:
+                w = {(k + 1 if kk == k else kk): vv for kk, vv in v.items()}
+                out.append(w)
+                break
+        return out
     if isinstance(v, (tuple, list)) and v:
         typ = type(v)
         # change one element (first element that has a neighbour)
@@ -917,6 +1069,10 @@ PIN_MODE = {
     "Full": lambda n: n.operand("name") is not None,
     "FromMap": lambda n: bool(n.operand("_name_prefix")),
     "FromDelayed": lambda n: bool(n.operand("_name_prefix")),
+    # hand-built but operand-derived names: `content changed => name changed` is still required
+    "Random": lambda n: False,
+    "RandomNormal": lambda n: False,
+    "RandomPoisson": lambda n: False,
 }
 _OPT = None
 
@@ -959,6 +1115,8 @@ def perturb_node(ctx, reg, node, positions, rng, stats, tag):
             continue
         pname = params[i] if i < len(params) else "*"
         nbs = neighbours(op, rng)
+        if pname in ("name", "token", "_name_prefix") and isinstance(op, str):
+            nbs = [op + "x"]  # key-name prefixes (validates the `nonSemantic` name/token exceptions)
         if "meta" in pname and (op is None or isinstance(op, np.ndarray)):
             # meta hints: another array type/dtype hint of the same rank (validates the `nonSemantic` exceptions)
             ranks = {len(base_cheap[0])} | ({op.ndim} if isinstance(op, np.ndarray) else set())
